@@ -667,10 +667,12 @@ func (interp *Interpreter) cfg(root *node, sc *scope, importPath, pkgName string
 			sc = sc.pushBloc()
 
 		case switchStmt, switchIfStmt, typeSwitch:
-			// Make sure default clause is in last position.
+			// Make sure default clause is in last position, the others keeping their order.
 			c := n.lastChild().child
 			if i, l := getDefault(n), len(c)-1; i >= 0 && i != l {
-				c[i], c[l] = c[l], c[i]
+				d := c[i]
+				copy(c[i:], c[i+1:])
+				c[l] = d
 			}
 			sc = sc.pushBloc()
 			sc.loop = n
@@ -2201,17 +2203,30 @@ func (interp *Interpreter) cfg(root *node, sc *scope, importPath, pkgName string
 				} else {
 					body := c.lastChild()
 					c.tnext = body.start
-					c.child[0].tnext = c
+					// Evaluate all the expressions of the clause, then the clause itself.
+					exprs := c.child[:len(c.child)-1]
+					for j, e := range exprs {
+						if j == len(exprs)-1 {
+							e.tnext = c
+						} else {
+							e.tnext = exprs[j+1].start
+						}
+					}
+					if len(exprs) == 0 {
+						c.child[0].tnext = c
+					}
 					c.start = c.child[0].start
 
-					if i < l-1 && len(body.child) > 0 && body.lastChild().kind == fallthroughtStmt {
+					// A fallthrough continues in the next clause in source order (the default
+					// clause has been moved to the last position).
+					if nx := nextClauseInSource(clauses, c); nx != nil && len(body.child) > 0 && body.lastChild().kind == fallthroughtStmt {
 						if n.kind == typeSwitch {
 							err = body.lastChild().cfgErrorf("cannot fallthrough in type switch")
 						}
-						if len(clauses[i+1].child) == 0 {
+						if len(nx.child) == 0 {
 							body.tnext = n // Fallthrough to next with empty body, just exit.
 						} else {
-							body.tnext = clauses[i+1].lastChild().start
+							body.tnext = nx.lastChild().start
 						}
 					} else {
 						body.tnext = n // Exit switch at end of clause body.
@@ -2258,20 +2273,27 @@ func (interp *Interpreter) cfg(root *node, sc *scope, importPath, pkgName string
 				} else {
 					body := c.lastChild()
 					if len(c.child) > 1 {
-						cond := c.child[0]
-						cond.tnext = body.start
-						if i == l-1 {
-							setFNext(cond, n)
-						} else {
-							setFNext(cond, clauses[i+1].start)
+						// The conditions of the clause are tried in order.
+						conds := c.child[:len(c.child)-1]
+						for j, cond := range conds {
+							cond.tnext = body.start
+							switch {
+							case j < len(conds)-1:
+								setFNext(cond, conds[j+1].start)
+							case i == l-1:
+								setFNext(cond, n)
+							default:
+								setFNext(cond, clauses[i+1].start)
+							}
 						}
-						c.start = cond.start
+						c.start = conds[0].start
 					} else {
 						c.start = body.start
 					}
 					// If last case body statement is a fallthrough, then jump to next case body
-					if i < l-1 && len(body.child) > 0 && body.lastChild().kind == fallthroughtStmt {
-						body.tnext = clauses[i+1].lastChild().start
+					// in source order (the default clause has been moved to the last position).
+					if nx := nextClauseInSource(clauses, c); nx != nil && len(nx.child) > 0 && len(body.child) > 0 && body.lastChild().kind == fallthroughtStmt {
+						body.tnext = nx.lastChild().start
 					} else {
 						body.tnext = n
 					}
@@ -2714,6 +2736,17 @@ func setFNext(cond, next *node) {
 }
 
 // GetDefault return the index of default case clause in a switch statement, or -1.
+// nextClauseInSource returns the clause which follows c in the source, or nil.
+func nextClauseInSource(clauses []*node, c *node) *node {
+	var next *node
+	for _, o := range clauses {
+		if o.pos > c.pos && (next == nil || o.pos < next.pos) {
+			next = o
+		}
+	}
+	return next
+}
+
 func getDefault(n *node) int {
 	for i, c := range n.lastChild().child {
 		switch len(c.child) {
